@@ -23,6 +23,7 @@ var runners = map[string]eng.Runner{
 	"C12": wire.C12,
 	"C13": wire.C13,
 	"C16": wire.C16,
+	"C17": wire.C17,
 	"C18": wire.C18,
 }
 
